@@ -9,6 +9,8 @@ A statement that is not recognised becomes `.other "<source>"`, about which noth
 import ast
 from pathlib import Path
 
+from .e16_shapes import body_strings as _e16_body_strings
+
 
 def body_of(fn):
     b = list(fn.body)
@@ -89,7 +91,8 @@ def extract(repo):
         mod_fns = {n.name: n for n in tree.body if isinstance(n, ast.FunctionDef)}
         for name, fn in (("start_action", mod_fns.get("start_action")), ("startTask", mod_fns.get("startTask")),
                          ("log_message", mod_fns.get("log_message")), ("child", fns.get("child"))):
-            shapes[name] = [ast.unparse(x) for x in body_of(fn)] if fn is not None else ["<missing>"]
+            # (normalised like E16's: alpha-renaming of what the function binds itself)
+            shapes[name] = _e16_body_strings(fn) if fn is not None else ["<missing>"]
         # key order of self._identification (a dict display in __init__)
         for n in ast.walk(fns["__init__"]):
             if isinstance(n, ast.Assign) and ast.unparse(n.targets[0]) == "self._identification" and isinstance(n.value, ast.Dict):
